@@ -132,9 +132,12 @@ static void gen_case(case_t *c, uint64_t seed) {
     if (rnd(&w, 5) == 0) s.max_length_diff = 1 + (idx_t)rnd(&w, 5);
     if (rnd(&w, 3) == 0) s.penalty = rnd(&w, 2) ? 0.5 : rnd01(&w) * 3.0;
     if (rnd(&w, 3) == 0) {
-        if (rnd(&w, 2)) { idx_t p = (idx_t)rnd(&w, (uint64_t)(minlen + 1)); s.psi_1b = s.psi_1e = s.psi_2b = s.psi_2e = p; }
-        else { s.psi_1b = (idx_t)rnd(&w, (uint64_t)(minlen + 1)); s.psi_1e = (idx_t)rnd(&w, (uint64_t)(minlen + 1));
-               s.psi_2b = (idx_t)rnd(&w, (uint64_t)(minlen + 1)); s.psi_2e = (idx_t)rnd(&w, (uint64_t)(minlen + 1)); }
+        /* psi up to the shortest series; one psi setting in four goes up to the LONGEST series + 1 (wider than some or all
+           series: the kernels clamp, the serial and the parallel result must still be the same) */
+        long plim = rnd(&w, 4) ? minlen + 1 : maxlen + 2;
+        if (rnd(&w, 2)) { idx_t p = (idx_t)rnd(&w, (uint64_t)plim); s.psi_1b = s.psi_1e = s.psi_2b = s.psi_2e = p; }
+        else { s.psi_1b = (idx_t)rnd(&w, (uint64_t)plim); s.psi_1e = (idx_t)rnd(&w, (uint64_t)plim);
+               s.psi_2b = (idx_t)rnd(&w, (uint64_t)plim); s.psi_2e = (idx_t)rnd(&w, (uint64_t)plim); }
     }
     /* psi is drawn up to the shortest series length whatever the window: a band narrower than psi is admissible input
        (it used to make the kernels read before / write past their rolling buffer: repaired in the repository). */
